@@ -288,6 +288,159 @@ Lemma empty_dictionary_passes c z osc : zentries (zc_chords c) = [] ->
   snd (z_press c z osc) = [ZP osc] /\ snd (z_release c z osc) = [ZR osc].
 Proof. intros H. unfold z_press, z_release. rewrite H. split; reflexivity. Qed.
 
+(* ---------- from one hold to the next ---------- *)
+Lemma press_has_last_chord c z S osc outp fol :
+  Inv z S -> not_special osc -> zentries (zc_chords c) <> [] ->
+  zlookup (zc_chords c) (sorted_insert osc (z_keys z)) = ZHas outp fol ->
+  z_last_chord (fst (z_press c z osc)) = true.
+Proof.
+  intros [He Hp Hl Hr Ha Hc Hs Htd Hpr Hh] (N1 & N2 & N3 & N4 & N5) Hne Hlk.
+  unfold z_press. destruct (zentries (zc_chords c)) as [|e0 es] eqn:Ees; [contradiction|].
+  destruct (N.eqb_spec osc 42); [contradiction|]. destruct (N.eqb_spec osc 54); [contradiction|].
+  destruct (N.eqb_spec osc 100); [contradiction|]. rewrite N4. rewrite Hs. cbn [andb]. rewrite He. cbn [zen_eqb negb].
+  rewrite Hp. cbn iota. rewrite Hlk. cbn iota.
+  match goal with |- context [fold_left ?f ?l ?i] => destruct (fold_left f l i) as [[r0 t0] e0'] end.
+  reflexivity.
+Qed.
+
+(* releasing a key of a hold whose last press completed a chord: the text is untouched; when the last key goes up the
+   bookkeeping is back to the start of a hold *)
+Lemma release_inv c z S osc :
+  zentries (zc_chords c) <> [] -> Inv z S -> z_last_chord z = true -> not_special osc ->
+  let z' := fst (z_release c z osc) in
+  z_keys z' = remove_key osc (z_keys z) /\ z_last_chord z' = true /\
+  (remove_key osc (z_keys z) = [] -> Inv z' []) /\ (remove_key osc (z_keys z) <> [] -> Inv z' S).
+Proof.
+  intros Hne [He Hp Hl Hr Ha Hc Hs Htd Hpr Hh] Hlc (N1 & N2 & N3 & N4 & N5).
+  unfold z_release. destruct (zentries (zc_chords c)) as [|e0 es] eqn:Ees; [contradiction|].
+  destruct (N.eqb_spec osc 42); [contradiction|]. destruct (N.eqb_spec osc 54); [contradiction|].
+  destruct (N.eqb_spec osc 100); [contradiction|]. rewrite N4. cbn [fst z_keys z_last_chord z_en z_prio].
+  rewrite Hlc, Hp.
+  destruct (remove_key osc (z_keys z)) as [|k ks] eqn:Er; cbn [fst z_keys z_last_chord z_clear_history].
+  - split; [reflexivity|]. split; [reflexivity|]. split; [|intros X; contradiction]. intros _.
+    constructor; cbn; auto.
+  - split; [reflexivity|]. split; [reflexivity|]. split; [discriminate|]. intros _.
+    constructor; cbn; auto.
+Qed.
+
+Fixpoint releases_run (c : zcfg) (z : zstate) (rels : list N) : zstate * list zev :=
+  match rels with
+  | [] => (z, [])
+  | k :: rest => let '(z1, e1) := z_release c z k in let '(z2, e2) := releases_run c z1 rest in (z2, e1 ++ e2)
+  end.
+
+Lemma releases_text c : forall rels z s, trun s (snd (releases_run c z rels)) = s.
+Proof.
+  induction rels as [|k rest IH]; intros z s; [reflexivity|]. cbn [releases_run].
+  destruct (z_release c z k) as [z1 e1] eqn:E1. destruct (releases_run c z1 rest) as [z2 e2] eqn:E2. cbn [snd].
+  rewrite trun_app. pose proof (release_text c z k s) as H. rewrite E1 in H. cbn [snd] in H. rewrite H.
+  specialize (IH z1 s). rewrite E2 in IH. exact IH.
+Qed.
+
+(* after the keys of a completed chord have all been released (in any order), the next hold starts clean *)
+Lemma releases_restore c : zentries (zc_chords c) <> [] -> forall rels z S,
+  Inv z S -> z_last_chord z = true -> Forall not_special rels ->
+  fold_left (fun ks k => remove_key k ks) rels (z_keys z) = [] -> rels <> [] ->
+  Inv (fst (releases_run c z rels)) [] /\ z_keys (fst (releases_run c z rels)) = [].
+Proof.
+  intros Hne. induction rels as [|k rest IH]; intros z S Hinv Hlc Hns Hk Hnonempty; [contradiction|].
+  inversion Hns as [|? ? Hk1 Hrest]; subst. cbn [fold_left] in Hk. cbn [releases_run].
+  destruct (release_inv c z S k Hne Hinv Hlc Hk1) as (Hkeys & Hlc' & Hempty & Hnon).
+  destruct (z_release c z k) as [z1 e1] eqn:E1. cbn [fst] in *.
+  destruct (releases_run c z1 rest) as [z2 e2] eqn:E2. cbn [fst].
+  destruct rest as [|k2 rest'].
+  - cbn [fold_left] in Hk. cbn [releases_run] in E2. injection E2 as <- _. split; [apply Hempty; exact Hk|rewrite Hkeys; exact Hk].
+  - destruct (remove_key k (z_keys z)) as [|x xs] eqn:Er.
+    + (* already empty: the remaining releases keep it clean *)
+      assert (Hk' : fold_left (fun ks k0 => remove_key k0 ks) (k2 :: rest') (z_keys z1) = []) by (rewrite Hkeys; exact Hk).
+      specialize (IH z1 [] (Hempty eq_refl) Hlc' Hrest Hk' ltac:(discriminate)).
+      rewrite E2 in IH. exact IH.
+    + assert (Hk' : fold_left (fun ks k0 => remove_key k0 ks) (k2 :: rest') (z_keys z1) = []) by (rewrite Hkeys; exact Hk).
+      specialize (IH z1 S (Hnon ltac:(discriminate)) Hlc' Hrest Hk' ltac:(discriminate)).
+      rewrite E2 in IH. exact IH.
+Qed.
+
+(* the state after the presses of a hold *)
+Fixpoint ends_with_chord (c : zcfg) (keys : list N) (presses : list N) : Prop :=
+  match presses with
+  | [] => False
+  | [k] => exists outp fol, zlookup (zc_chords c) (sorted_insert k keys) = ZHas outp fol
+  | k :: rest => ends_with_chord c (sorted_insert k keys) rest
+  end.
+
+Lemma hold_state c : zc_ss c <> 2 -> zentries (zc_chords c) <> [] -> forall presses z S,
+  Inv z S -> hold_ok c (z_keys z) presses ->
+  Inv (fst (presses_run c z presses)) (screen_after c (z_keys z) S presses) /\
+  z_keys (fst (presses_run c z presses)) = fold_left (fun ks k => sorted_insert k ks) presses (z_keys z) /\
+  (ends_with_chord c (z_keys z) presses -> z_last_chord (fst (presses_run c z presses)) = true).
+Proof.
+  intros Hss Hne. induction presses as [|k rest IH]; intros z S Hinv Hok.
+  - cbn [presses_run screen_after fold_left fst ends_with_chord]. split; [exact Hinv|]. split; [reflexivity|intros []].
+  - cbn [hold_ok] in Hok. destruct Hok as (Hns & Hlk & Hrest). cbn [presses_run screen_after fold_left].
+    assert (Hstep : exists S1, Inv (fst (z_press c z k)) S1 /\ z_keys (fst (z_press c z k)) = sorted_insert k (z_keys z) /\
+              S1 = match zlookup (zc_chords c) (sorted_insert k (z_keys z)) with ZHas outp _ => expansion c outp | _ => S ++ [k] end /\
+              ((exists outp fol, zlookup (zc_chords c) (sorted_insert k (z_keys z)) = ZHas outp fol) -> z_last_chord (fst (z_press c z k)) = true)).
+    { destruct Hlk as [Hsub|(outp & Hhas & Hno & Hpl)].
+      - destruct (press_subset c z S k Hinv Hns Hss Hne Hsub) as (Hinv' & Hkeys & _).
+        exists (S ++ [k]). rewrite Hsub. split; [exact Hinv'|]. split; [exact Hkeys|]. split; [reflexivity|]. intros (o & f0 & X). discriminate.
+      - destruct (press_has c z S k outp None Hinv Hns Hss Hne Hhas eq_refl Hno Hpl) as (Hinv' & Hkeys & _).
+        exists (expansion c outp). rewrite Hhas. split; [exact Hinv'|]. split; [exact Hkeys|]. split; [reflexivity|]. intros _.
+        eapply press_has_last_chord; eassumption. }
+    destruct Hstep as (S1 & Hinv1 & Hkeys1 & HS1 & Hlc1).
+    destruct (z_press c z k) as [z1 e1] eqn:Ep. cbn [fst] in *.
+    rewrite <- Hkeys1 in Hrest. destruct (IH z1 S1 Hinv1 Hrest) as (I1 & I2 & I3).
+    destruct (presses_run c z1 rest) as [z2 e2] eqn:Er. cbn [fst] in *.
+    rewrite Hkeys1 in I1, I2, I3.
+    assert (Escr : screen_after c (sorted_insert k (z_keys z)) S1 rest =
+                   match zlookup (zc_chords c) (sorted_insert k (z_keys z)) with
+                   | ZHas outp _ => screen_after c (sorted_insert k (z_keys z)) (expansion c outp) rest
+                   | _ => screen_after c (sorted_insert k (z_keys z)) (S ++ [k]) rest
+                   end) by (rewrite HS1; destruct (zlookup (zc_chords c) (sorted_insert k (z_keys z))); reflexivity).
+    rewrite <- Escr. split; [exact I1|]. split; [exact I2|].
+    intros Hend. destruct rest as [|k2 rest'].
+    + cbn [presses_run] in Er. injection Er as <- _. apply Hlc1. exact Hend.
+    + apply I3. exact Hend.
+Qed.
+
+(* a typing session: holds that each end with a completed chord, every key released before the next hold *)
+Fixpoint session_run (c : zcfg) (z : zstate) (holds : list (list N * list N)) : zstate * list zev :=
+  match holds with
+  | [] => (z, [])
+  | (ps, rs) :: rest =>
+      let '(z1, e1) := presses_run c z ps in
+      let '(z2, e2) := releases_run c z1 rs in
+      let '(z3, e3) := session_run c z2 rest in
+      (z3, e1 ++ e2 ++ e3)
+  end.
+Fixpoint session_text (c : zcfg) (holds : list (list N * list N)) : list N :=
+  match holds with
+  | [] => []
+  | (ps, _) :: rest => screen_after c [] [] ps ++ session_text c rest
+  end.
+Definition hold_wf (c : zcfg) (h : list N * list N) : Prop :=
+  hold_ok c [] (fst h) /\ ends_with_chord c [] (fst h) /\ Forall not_special (snd h) /\ snd h <> [] /\
+  fold_left (fun ks k => remove_key k ks) (snd h) (fold_left (fun ks k => sorted_insert k ks) (fst h) []) = [].
+
+Theorem session_leaves_the_expansions c : zc_ss c <> 2 -> zentries (zc_chords c) <> [] -> forall holds z,
+  Inv z [] -> z_keys z = [] -> Forall (hold_wf c) holds ->
+  forall base, trun base (snd (session_run c z holds)) = base ++ session_text c holds.
+Proof.
+  intros Hss Hne. induction holds as [|[ps rs] rest IH]; intros z Hinv Hk Hwf base.
+  - cbn. rewrite app_nil_r. reflexivity.
+  - inversion Hwf as [|? ? (Hok & Hend & Hns & Hrne & Hrel) Hwf']; subst. cbn [fst snd] in *. cbn [session_run session_text].
+    rewrite <- Hk in Hok, Hend.
+    destruct (hold_state c Hss Hne ps z [] Hinv Hok) as (I1 & I2 & I3).
+    pose proof (hold_text c Hss Hne ps z [] Hinv Hok base) as Ht. rewrite app_nil_r in Ht.
+    destruct (presses_run c z ps) as [z1 e1] eqn:Ep. cbn [fst snd] in *.
+    rewrite Hk in I2. rewrite <- I2 in Hrel.
+    destruct (releases_restore c Hne rs z1 _ I1 (I3 Hend) Hns Hrel Hrne) as (R1 & R2).
+    pose proof (releases_text c rs z1) as Hrt.
+    destruct (releases_run c z1 rs) as [z2 e2] eqn:Er. cbn [fst snd] in *.
+    specialize (IH z2 R1 R2 Hwf').
+    destruct (session_run c z2 rest) as [z3 e3] eqn:Es. cbn [snd] in *.
+    rewrite !trun_app, Ht, Hrt, IH, Hk, <- app_assoc. reflexivity.
+Qed.
+
 (* non-vacuity: ab -> xa, abc -> xb, abcd -> yc; pressing a b c d leaves "yc" *)
 Example overlapping_example :
   let o s := map (fun c => ZO 0 false c) s in
